@@ -33,6 +33,34 @@ def config_of(d, einsum):
     return None
 
 
+def fusion_obs(d):
+    """per Einsum: what Fusion.add_einsum looks at (loop ranks, space ranks, configuration, functional components with a
+    non-empty binding list), read from the specification (loop ranks through the Program IR, never through Fusion/Hardware)"""
+    import pool
+    lr = pool.loop_ranks(d)
+    if lr is None:
+        return None
+    arch = arch_components(d)
+    obs = []
+    for name in lr:
+        st = ((d.get("mapping") or {}).get("spacetime") or {}).get(name)
+        if st is None:
+            return None
+        space = [str(x).split(".")[0] for x in st.get("space") or []]
+        cfg = config_of(d, name)
+        comps = []
+        for b in (d.get("bindings") or {}).get(name, []):
+            if "component" not in b:
+                continue
+            info = arch.get(cfg, {}).get(b["component"])
+            if info is None:
+                return None
+            if info["cls"] in ("compute", "intersector", "sequencer") and b.get("bindings"):
+                comps.append(b["component"])
+        obs.append({"einsum": name, "loop": list(lr[name]), "space": space, "config": cfg, "comps": sorted(set(comps))})
+    return obs
+
+
 def time_info(hf, d):
     """blocks, registered components, the metrics["time"] expression(s) and every component-time assignment"""
     fusion = hf.fusion
@@ -67,4 +95,4 @@ def time_info(hf, d):
                     if type(o).__name__ == "EVar" and o.name == "metrics" and len(path) == 2:
                         comp_times.append(dict(einsum=path[1], comp=path[0], text=s.expr.gen(), expr=export.expr(s.expr)))
     visit(hf.hifiber)
-    return dict(blocks=blocks, comps=comps, totals=totals, comp_times=comp_times)
+    return dict(blocks=blocks, comps=comps, totals=totals, comp_times=comp_times, obs=fusion_obs(d))
